@@ -88,7 +88,7 @@ def classify(toks, n, per):
 
 
 def run_one(impl, cfg, timeout=120):
-    line = '%s %d %d %d %d %d' % (cfg['mode'], cfg['n'], cfg['per'], cfg['seed'], cfg['perturb'], cfg['dup'])
+    line = '%s %d %d %d %d %d %d' % (cfg['mode'], cfg['n'], cfg['per'], cfg['seed'], cfg['perturb'], cfg['dup'], cfg.get('stall', 0))
     rc, out, err = vlib.sh([impl], inp=(line + '\n').encode(), timeout=timeout)
     hdr, toks = parse_run(out)
     return rc, hdr, toks, err
@@ -110,8 +110,14 @@ def gen_configs(chk, reps, total, heavy=False):
         for mode in ('logger', 'bare'):
             for n in NS:
                 cfgs.append({'mode': mode, 'n': n, 'per': max(1, total // n), 'seed': chk.rng.randrange(1, 2 ** 31),
-                             'perturb': 3 if heavy else chk.rng.choice([0, 1, 1, 2, 2, 3]), 'dup': chk.rng.choice([0, 0, 1])})
+                             'perturb': 3 if heavy else chk.rng.choice([0, 1, 1, 2, 2, 3]), 'dup': chk.rng.choice([0, 0, 1]), 'stall': 0})
     return cfgs
+
+
+def stall_configs(chk, reps, ms):
+    """a handler of long duration: one message keeps the pipeline busy for `ms` while the other producers keep logging"""
+    return [{'mode': mode, 'n': 4, 'per': 60, 'seed': chk.rng.randrange(1, 2 ** 31), 'perturb': 1, 'dup': 0, 'stall': ms}
+            for _ in range(reps) for mode in ('logger', 'bare')]
 
 
 def build_tsan():
@@ -140,10 +146,10 @@ def run():
     impl = vlib.build_harness('conc')
     thorough = chk.tier == 'thorough'
     total = 2000
-    cfgs = gen_configs(chk, 17 if thorough else 6, total)
+    cfgs = stall_configs(chk, 1, 1300) + gen_configs(chk, 17 if thorough else 6, total)
     if not proof_ok:
         # the skeleton no longer satisfies the obligation (or a proof broke): widen the schedule search
-        cfgs += gen_configs(chk, 6, total, heavy=True)
+        cfgs += gen_configs(chk, 6, total, heavy=True) + stall_configs(chk, 1, 2600)
     results = []
     with concurrent.futures.ThreadPoolExecutor(max_workers=4) as ex:
         futs = [(c, ex.submit(run_one, impl, c)) for c in cfgs]
@@ -216,13 +222,14 @@ def run():
                             'announces the lock hand-over at the schedule points; supporting evidence only, never a verdict'}
     chk.cov.update({'evaluations': len(results), 'distinct_nontrivial': sum(1 for r in results if r[2] is not None and len(r[3]) >= 2 * r[0]['n']),
                     'rule': '%d runs = repetitions x {installed Logger via qInfo/qWarning, bare OwnThreadHandler<SimplePipeline>} x '
-                            'N in {2,4,8,16,32,64} producer threads, ~%d messages per run, seeded yields/sleeps/spins at the schedule points; '
+                            'N in {2,4,8,16,32,64} producer threads, ~%d messages per run, seeded yields/sleeps/spins at the schedule points, '
+                            'plus runs in which one handler call lasts 1.3 s while the other producers keep logging; '
                             'non-trivial = at least two deliveries per producer' % (len(results), total),
                     'events_recorded': n_events, 'deliveries': n_deliv, 'producer_switches_between_consecutive_deliveries': switches,
                     'threads_histogram': {str(n): sum(1 for r in results if r[0]['n'] == n) for n in NS},
                     'mode_histogram': {m: sum(1 for r in results if r[0]['mode'] == m) for m in ('logger', 'bare')},
                     'perturb_histogram': {str(p): sum(1 for r in results if r[0]['perturb'] == p) for p in range(4)},
-                    'dupfilter_runs': sum(1 for r in results if r[0]['dup']),
+                    'dupfilter_runs': sum(1 for r in results if r[0]['dup']), 'long_handler_runs': sum(1 for r in results if r[0].get('stall')),
                     'violation_kinds': kinds, 'acceptor_vs_oracle_disagreements': disagreements, 'tsan': tsan})
     chk.samples = [{'config': r[0], 'header': r[2], 'first_events': r[3][:12]} for r in results[:3]]
     return chk.finish()
@@ -236,7 +243,7 @@ def replay(path):
         print(json.dumps(r, indent=1)); return 0
     vlib.gen_src(['conc'])
     model = vlib.build_model('conc'); impl = vlib.build_harness('conc')
-    cfg = {k: r[k] for k in ('mode', 'n', 'per', 'seed', 'perturb', 'dup')}
+    cfg = {k: r.get(k, 0) for k in ('mode', 'n', 'per', 'seed', 'perturb', 'dup', 'stall')}
     print('recorded    ', r.get('kind'), r.get('detail'))
     print('recorded schedule (tail):', ' '.join(r.get('schedule_up_to_first_rejected_event', [])))
     for k in range(5):   # schedules are not deterministic: re-run the same configuration a few times
